@@ -464,7 +464,51 @@ def unit_schema(U):
     IM_.prove_plain_schema(U, "C06", ['features', 'relations'])
 
 
-UNITS = [("schema", unit_schema), ("limit", unit_limit), ("region", unit_region), ("sqlmodel", unit_sqlmodel_validation), ("bounded", unit_bounded), ("bounded.straddle", unit_bounded_straddle)]
+def unit_bounded_logging(U):
+    """Bounded: what a query returns does not depend on the logging configuration of the application: region() and limit=
+    queries with the root logger (and the gffutils loggers) at DEBUG, against the statement"""
+    import logging
+    import io
+    import gffutils.feature as F_
+    fails, cases = [], 0
+    feats = [F_.Feature(seqid="c", source="s", featuretype="gene", start=1, end=5000, strand="+", attributes={"ID": ["g"]})]
+    for i, (a, b) in enumerate(((10, 20), (15, 40), (100, 200), (150, 150), (4000, 4500), (131000, 131100))):
+        feats.append(F_.Feature(seqid="c", source="s", featuretype="exon", start=a, end=b, strand="+-"[i % 2], attributes={"ID": ["x%d" % i], "Parent": ["g"]}))
+    db = gffutils.create_db(feats, ":memory:")
+    root = logging.getLogger()
+    names = [n for n in list(logging.root.manager.loggerDict) if n == "gffutils" or n.startswith("gffutils.")] + ["gffutils", "gffutils.interface", "gffutils.helpers"]
+    saved = [(root, root.level, list(root.handlers))] + [(logging.getLogger(n), logging.getLogger(n).level, None) for n in set(names)]
+    sink = logging.StreamHandler(io.StringIO())
+    disabled = logging.root.manager.disable          # (the checker itself runs with logging.disable(CRITICAL): lift it for this unit)
+    try:
+        logging.disable(logging.NOTSET)
+        root.handlers = [sink]
+        for lg, _, _ in saved:
+            lg.setLevel(logging.DEBUG)
+        for qs, qe in ((1, 30), (15, 15), (18, 120), (150, 150), (1, 6000), (130000, 132000), (4100, 4200)):
+            for cw in (False, True):
+                want = lambda pool: sorted(f.id for f in pool if ((qs <= f.start and f.end <= qe) if cw else (f.start <= qe and f.end >= qs)))
+                for name, fn, pool in (("region", lambda: db.region(("c", qs, qe), completely_within=cw), feats),
+                                       ("region(featuretype)", lambda: db.region(("c", qs, qe), completely_within=cw, featuretype="exon"), feats[1:]),
+                                       ("all_features(limit)", lambda: db.all_features(limit=("c", qs, qe), completely_within=cw), feats),
+                                       ("children(limit)", lambda: db.children("g", limit=("c", qs, qe), completely_within=cw), feats[1:])):
+                    cases += 1
+                    try:
+                        got = sorted(f.id for f in fn())
+                    except Exception as e:
+                        got = "raised %r" % (e,)
+                    if got != want(pool):
+                        fails.append({"case": {"call": name, "interval": [qs, qe], "completely_within": cw, "logging": "root and gffutils loggers at DEBUG"}, "expected": want(pool), "observed": got})
+    finally:
+        logging.disable(disabled)
+        for lg, lvl, handlers in saved:
+            lg.setLevel(lvl)
+            if handlers is not None:
+                lg.handlers = handlers
+    U.bounded_result("C06.bounded.debug_logging", "region() / limit= results with DEBUG logging switched on == the statement's set", "7 features, 7 intervals x {overlap, within} x 4 entry points, loggers at DEBUG", cases, fails)
+
+
+UNITS = [("schema", unit_schema), ("bounded.debug_logging", unit_bounded_logging), ("limit", unit_limit), ("region", unit_region), ("sqlmodel", unit_sqlmodel_validation), ("bounded", unit_bounded), ("bounded.straddle", unit_bounded_straddle)]
 
 
 def replay_file(doc):
